@@ -30,7 +30,8 @@ RULE = ("Base messages are produced in simulation by fixed scenarios: v1/v2c res
         "quick), seeded pairs and triples of header positions with dictionary values, indefinite lengths with end-of-contents, "
         "seeded random strings of 0-2000 octets and some of 65507, constructed values nested up to the UDP maximum, and "
         "WELL-FORMED but unusually large variants of the message (up to 6 500 tiny bindings, one 60 000-octet string, error "
-        "responses with thousands of bindings). 'After "
+        "responses with thousands of bindings), and v3 messages whose engine boots/time are well-formed INTEGERs of 3-200 "
+        "octets (2^80 and beyond). 'After "
         "authentication' = the agent applies the mutation to the scoped PDU before encrypting and signing. Oracle: while the "
         "client processes the exchange every Python function entry, call and loop jump outside the harness is counted "
         "(sys.monitoring) and must stay below A + 200 x len(datagram) events (A = 400k for single exchanges, 1.2M for walks, "
@@ -49,7 +50,7 @@ ASSUMPTIONS = [
 ]
 PROBES = ["flip", "trunc", "hsub", "hsub_multi", "eoc", "random", "random_max_size", "nest", "post_auth", "discovery_reply",
           "report", "trap", "raised", "accepted_mutated", "recursion_error", "indefinite_no_eoc_reached", "timeout_path",
-          "memory_measured", "big_wellformed", "big_over_50k_octets"]
+          "memory_measured", "big_wellformed", "big_over_50k_octets", "huge_engine_boots_or_time"]
 shrink_lists = [("mutations",)]
 DICT = [0x00, 0x01, 0x7F, 0x80, 0x81, 0x82, 0x83, 0x84, 0x88, 0xFF, 0x04, 0x30, 0xA2, 0x02, 0x43, 0x44]
 
@@ -160,6 +161,27 @@ def big_message(raw: bytes, style: int, n: int) -> bytes:
     return S.enc_v3_msg(msg["msg_id"], msg["max_size"], msg["flags"], 3, S.enc_usm_params(msg["sec"]), scoped)
 
 
+def secint_message(raw: bytes, which: int, octets: int) -> bytes:
+    """The authentic v3 message with msgAuthoritativeEngineBoots (which=0), ...Time (1) or both (2) replaced by a
+    well-formed INTEGER of *octets* content octets (positive for even, negative for odd sizes): 5 octets is already
+    beyond Integer32, 11 octets is 2^80.  Everything else is kept (so an unauthenticated message stays acceptable)."""
+    try:
+        msg = S.decode_message(raw)
+    except B.BerError:
+        return raw
+    if msg["version"] != 3 or msg["sec"] is None:
+        return raw
+    lead = b"\x7f" if octets % 2 == 0 else b"\x80"
+    huge = B.tlv(0x02, lead + b"\x5a" * (octets - 1))
+    sec = msg["sec"]
+    fields = [B.enc_str(sec["engine_id"]),
+              huge if which in (0, 2) else B.enc_int(sec["boots"]),
+              huge if which in (1, 2) else B.enc_int(sec["time"]),
+              B.enc_str(sec["user"]), B.enc_str(sec["auth"]), B.enc_str(sec["priv"])]
+    data = msg["scoped_raw"] if msg["scoped"] is not None else B.enc_str(msg["encrypted"])
+    return S.enc_v3_msg(msg["msg_id"], msg["max_size"], msg["flags"], 3, B.enc_seq(fields), data)
+
+
 def apply_mutation(raw: bytes, m: list) -> bytes:
     kind = m[0]
     if kind in ("none", "drop"):
@@ -193,6 +215,8 @@ def apply_mutation(raw: bytes, m: list) -> bytes:
         return nested(m[1], m[2])
     if kind == "big":
         return big_message(raw, m[1], m[2])
+    if kind == "secint":
+        return secint_message(raw, m[1], m[2])
     raise ValueError(kind)
 
 
@@ -393,6 +417,8 @@ def _segments(tier: str) -> List[Tuple[str, str, int]]:
         segs.append((name, "nest", 8 if tier == "quick" else 24))
         if "disco" not in name and "report" not in name:
             segs.append((name, "big", 6 if tier == "quick" else 24))
+        if name.startswith("v3") and SCENARIOS[name][4] == "pre":
+            segs.append((name, "secint", 12 if tier == "quick" else 36))
     return segs
 
 
@@ -448,6 +474,9 @@ def plan_for(tier: str, seed: int, i: int) -> dict:
             rng = rng_for(seed, ID, tier + ":" + name + ":rand", j)
             n = 65507 if j % 50 == 49 else rng.choice([0, 1, 2, 3, 5, 8, 16, 40, 100, 300, 1000, 2000, rng.randrange(0, 2001)])
             muts.append(["rand", rng.getrandbits(40), n])
+        elif fam == "secint":
+            sizes = [5, 8, 11, 16, 4, 9, 33, 64, 127, 126, 3, 200]
+            muts.append(["secint", j % 3, sizes[(j // 3) % len(sizes)]])
         elif fam == "big":
             style = j % 4
             sizes = [2000, 8000, 500, 60000] if style == 1 else [300, 2500, 1000, 6500, 4000, 50]
@@ -521,6 +550,7 @@ def execute(plan: dict) -> dict:
             probes["hsub"] |= int(fam == "hsub" and len(m) == 3); probes["hsub_multi"] |= int(fam == "hsub" and len(m) > 3)
             probes["eoc"] |= int(fam == "eoc"); probes["random"] |= int(fam == "rand")
             probes["random_max_size"] |= int(fam == "rand" and m[2] == 65507); probes["nest"] |= int(fam == "nest")
+            probes["huge_engine_boots_or_time"] |= int(fam == "secint" and reached and changed)
             probes["big_wellformed"] |= int(fam == "big" and reached)
             probes["big_over_50k_octets"] |= int(fam == "big" and reached and len(mutated) > 50000)
             probes["post_auth"] |= int(env.where == "post" and reached)
